@@ -10,9 +10,11 @@ Oracle (on the real director code through `simdirector`), two families of projec
 from an empty database under 4 configurations (1-4 jobs, FIFO / LIFO / random dispatch and
 completion order, resource limits as configured or larger):
  (a) projgen projects (valid, and with a conflict, a cycle, a missing input, failing commands);
- (b) racing projects: 2-3 plan steps that run concurrently and declare static files, a static
-     tree, glob patterns and steps referring to each other's files, optionally with one pair of
-     mutually exclusive declarations placed in two different plans.
+ (b) racing projects: 2-3 plan steps that run concurrently and declare static files, static trees
+     (two of them in one request), glob patterns and steps referring to each other's files,
+     optionally with one pair of mutually exclusive declarations placed in two different plans;
+ (c) amend timing: a consumer that reads a producer's output first and amends it afterwards, next
+     to unrelated steps of different lengths, under 1 and 3-5 jobs (6 configurations).
 Compared: the return-code class under all configurations; for successful builds the canonical
 graph text (digests included) and all file bytes; the set of rejected-request texts; and the graph
 after resuming the first configuration's database unchanged under another configuration.
@@ -88,7 +90,7 @@ def compare_runs(results, variants, info) -> list[tuple[str, str, dict]]:
 
 def run_case(ctx, index: int, *, salt="proj"):
     r = ctx.rng(salt, index)
-    family = "race" if index % 2 else "projgen"
+    family = ("projgen", "race", "race", "amend-timing")[index % 4]
     info = {"family": family}
     if family == "projgen":
         roll = r.random()
@@ -102,12 +104,20 @@ def run_case(ctx, index: int, *, salt="proj"):
         project = projgen.render(model)
         resources = model.resources
         info.update({"invalid": invalid, "fail_prob": fail_prob, "nstep": len(model.steps)})
-    else:
+    elif family == "race":
         conflict = r.random() < 0.3
         project, rinfo = buildkit.gen_race_project(r, conflict=conflict)
         resources = None
         info.update(rinfo)
+    else:
+        project, rinfo = buildkit.gen_amend_timing_project(r)
+        resources = None
+        info.update(rinfo)
     variants = buildkit.schedule_variants(r, resources, 4)
+    if family == "amend-timing":
+        # the guard only matters with three or more jobs and many interleavings
+        variants = [{"njob": 1, "schedule": ("fifo",)}] + [
+            {"njob": r.randint(3, 5), "schedule": ("random", r.randrange(1 << 30))} for _ in range(5)]
     sim_seed = r.randrange(1 << 30)
     found, summary = evaluate(project, variants, sim_seed, info)
     summary["family"] = family
@@ -167,7 +177,7 @@ async def search(ctx):
         st.case(("proj", i, summary["family"]), nontrivial=summary["distinct_traces"] > 1)
         st.programs += 1
         st.count("projects:" + summary["family"])
-        st.count("builds", 4)
+        st.count("builds", 6 if summary["family"] == "amend-timing" else 4)
         st.count("commands-executed", summary["commands"])
         st.count("class:" + "/".join(sorted(set(summary["classes"]))))
         st.count("distinct-interleavings", summary["distinct_traces"])
